@@ -211,7 +211,7 @@ func runC17(c *Ctx) {
 				return true
 			})
 			_ = classifiers
-			okN = okN && nuse >= 3
+			okN = okN && nuse >= 1
 			c.check(okN, "C17.R2", key+"|normalise-before-classify", c.pos(norm.Pos()), fmt.Sprintf("normalisation dominates %d uses of the range", nuse),
 				"a classification predicate or edit primitive uses the range before it was normalised")
 		}
@@ -363,7 +363,15 @@ func runC17(c *Ctx) {
 				decls[info.Defs[fd.Name]] = fd
 			}
 		}
-		den := &denum{info: info, pkg: p.Types, inits: map[types.Object]ast.Expr{}, limit: 20000, opaqueLoops: true, decls: decls}
+		// (phases of Apply — classify into a kind, then perform that kind — are followed into; the edit primitives and
+		// the range normaliser are not: they are what the paths are asked about)
+		noInline := map[types.Object]bool{}
+		for _, fd := range allFuncDecls(p) {
+			if fn, ok := info.Defs[fd.Name].(*types.Func); ok && (fd.Name.IsExported() || isRangeMutator(c, p, fn)) {
+				noInline[fn] = true
+			}
+		}
+		den := &denum{info: info, pkg: p.Types, inits: map[types.Object]ast.Expr{}, limit: 20000, opaqueLoops: true, decls: decls, inlineVals: true, noInline: noInline}
 		den.finish(den.run(apFd.Body.List, []dstate{{env: map[types.Object]ast.Expr{}}}))
 		key := p.PkgPath + "|edit-predicates-partition"
 		if den.undecided != "" {
